@@ -124,8 +124,9 @@ class Explorer:
                     ok = True
                 except Infeasible:
                     ok = False
-                except (IndexError, ZeroDivisionError, ValueError, ArithmeticError) as ex:
-                    if not self.uncertain:
+                except Exception as ex:
+                    benign = isinstance(ex, (IndexError, ZeroDivisionError, ValueError, ArithmeticError)) or "division by a constant zero" in str(ex)
+                    if not (self.uncertain and benign):
                         raise
                     # the path was admitted only because a feasibility query timed out: it may well be infeasible, so the failure of
                     # the code under test on it proves nothing; it is counted and makes the exploration inconclusive
